@@ -28,7 +28,7 @@ FLOORS = {'skipped_tests_judged': 60, 'tests_judged': 1500, 'leaks_expected': 40
           'leak_across_later_test': 200, 'ident_reuse_histories': 30,
           'ignored_threads': 100, 'dummy_threads': 200,
           'renames_in_later_tests': 40, 'leaks_sharing_a_name': 40,
-          'ended_thread_objects_freed': 300}
+          'ended_thread_objects_freed': 300, 'nested_runs': 60}
 BATCH_TIMEOUT = 300
 
 HEADER = 'The following test left new threads behind:'
@@ -134,8 +134,18 @@ def cases(tier, seed):
                     hist[j] = [t for t in hist[j] if t['rel'][0] != i
                                and t.get('rename_in') != i]
                 hist[i] = []
+        # a quarter of the histories: one of the tests runs the test runner
+        # itself (in-process, output captured, over a tree of its own) after
+        # it has started its threads - what the doctests of runner plug-ins
+        # do; the inner run starts and ends tests of its own
+        nested = None
+        cand = [i for i in range(L) if i not in skips]
+        if cand and rng.random() < 0.25:
+            nested = {'in': rng.choice(cand),
+                      'argv': rng.choice([[], ['-v'], ['-vv'], ['--buffer']]),
+                      'fail': rng.random() < 0.3}
         out.append({'idx': idx, 'hist': hist, 'reuse': rng.random() < 0.3,
-                    'skips': skips,
+                    'skips': skips, 'nested': nested,
                     'ign': rng.choice([['ign-'], ['ign-', 'Dummy-'],
                                        ['ign-.*\\d$'], [],
                                        # patterns that only mean the same
@@ -218,6 +228,10 @@ def run_case(case):
         if i in (case.get('skips') or []):
             tests.append({'name': 'test_%02d' % i, 'kind': 'skip_deco'})
             continue
+        nested = case.get('nested')
+        if nested and nested['in'] == i:
+            body = body + [{'ph': 'body', 'do': 'nested_run',
+                            'argv': nested['argv'], 'fail': nested['fail']}]
         tests.append({'name': 'test_%02d' % i, 'kind': 'pass',
                       'threads_ledger': True, 'actions': other + body})
     layers = [{'name': 'Base', 'kind': 'class', 'bases': [],
@@ -270,6 +284,7 @@ def run_case(case):
                 continue
             i = int(tid.rsplit('_', 1)[1])
             reported.setdefault(i, []).extend(idents)
+    common.judge_nested(w.events, V, C)
     idents_alive = {}
     reuse_seen = False
     seen_idents = {}
